@@ -1713,6 +1713,7 @@ macro_rules! calculate_rm {
 
 pub(crate) use calculate_rm;
 
+#[cfg(not(all(feature = "ax_verif", not(test))))]
 macro_rules! fatal_error {
     ($message:expr, $($arg:tt)*) => {{
         #[cfg(all(target_arch = "wasm32", not(test)))]
@@ -1739,6 +1740,17 @@ macro_rules! fatal_error {
         }
     }};
 }
+#[cfg(all(feature = "ax_verif", not(test)))]
+macro_rules! fatal_error {
+    ($message:expr, $($arg:tt)*) => {{
+        $crate::verif::note_rejection($crate::verif::Rejection::Fatal);
+        return Err(AxError::from(format!($message, $($arg)*)).into());
+    }};
+    ($message:expr) => {{
+        $crate::verif::note_rejection($crate::verif::Rejection::Fatal);
+        return Err(AxError::from($message).into());
+    }};
+}
 pub(crate) use fatal_error;
 
 macro_rules! assert_fatal {
@@ -1755,6 +1767,7 @@ macro_rules! assert_fatal {
 }
 pub(crate) use assert_fatal;
 
+#[cfg(not(all(feature = "ax_verif", not(test))))]
 macro_rules! opcode_unimplemented {
     ($message:expr) => {{
         #[cfg(target_arch = "wasm32")]
@@ -1770,6 +1783,17 @@ macro_rules! opcode_unimplemented {
         {
             panic!("Executed unimplemented opcode: {}", $message);
         }
+    }};
+}
+
+#[cfg(all(feature = "ax_verif", not(test)))]
+macro_rules! opcode_unimplemented {
+    ($message:expr) => {{
+        $crate::verif::note_rejection($crate::verif::Rejection::Unimplemented);
+        return Err(AxError::from(format!(
+            "Executed unimplemented opcode: {}",
+            $message
+        )));
     }};
 }
 
